@@ -29,15 +29,18 @@ ok = log.get('applies') and log.get('demo_without') == 0 and log.get('demo_with'
 log['confirmed'] = bool(ok)
 det = {}
 if ok and checks:
-    assert sh('git diff --quiet', cwd='/repo').returncode == 0, 'repo dirty'
-    sh(f'git apply {dst}/patch.diff', cwd='/repo')
+    # run the checks against a scratch worktree carrying the patch (KNEE_REPO), never against /repo itself
+    w2 = tempfile.mkdtemp(prefix='knee-mutchk-')
+    os.rmdir(w2)
+    sh(f'git -C /repo worktree add -q --detach {w2} HEAD')
     try:
+        sh(f'git apply {dst}/patch.diff', cwd=w2)
         for c in checks:
-            r = sh(f'bin/check {c} --tier quick', cwd='/verif')
+            r = sh(f'bin/check {c} --tier quick', cwd='/verif', env={'KNEE_REPO': w2})
             line = next((l for l in r.stdout.splitlines() if 'VIOLATION' in l), '')
             det[c] = dict(rc=r.returncode, line=line)
     finally:
-        sh('git checkout -- .', cwd='/repo')
+        sh(f'git -C /repo worktree remove --force {w2}')
 meta = json.load(open(f'{dst}/meta.json'))
 meta['validation'] = log
 meta['checks_run'] = det
